@@ -65,7 +65,11 @@ func judgeStdOutput(src []byte, paths []string, declared func(path string) []str
 	for i, p := range paths {
 		q, ok := quals[i]
 		if !ok {
-			probs = append(probs, fmt.Sprintf("reference to %q not found as a qualified identifier", p))
+			// a dot import provides the names of the package directly: the reference is a bare identifier
+			if is := specs[p]; is != nil && is.Name != nil && is.Name.Name == "." && bytes.Contains(src, []byte(fmt.Sprintf("= StdSym%d\n", i))) {
+				continue
+			}
+			probs = append(probs, fmt.Sprintf("reference to %q not found as a qualified identifier (and not bare under a dot import)", p))
 			continue
 		}
 		is := specs[p]
@@ -104,7 +108,7 @@ func judgeStdOutput(src []byte, paths []string, declared func(path string) []str
 // c18Variants: the ways in which the one-reference files are produced. 0: fresh File rendered once; 1: the second
 // render of the same File; 2: the File also carries a cgo preamble (directives only, nothing refers to C); 3: the
 // references are first rendered as fragments with the File (RenderWithFile), then the File is rendered.
-var c18Variants = []string{"fresh", "second-render", "with-cgo-preamble", "after-RenderWithFile", "file-named-like-the-package", "alias-after-name-hint", "alias-given-twice"}
+var c18Variants = []string{"fresh", "second-render", "with-cgo-preamble", "after-RenderWithFile", "file-named-like-the-package", "alias-after-name-hint", "alias-given-twice", "dot-import-rendered-twice"}
 
 func (sc stdRefCase) render() ([]byte, string) { return sc.renderVariant(0) }
 
@@ -139,6 +143,9 @@ func (sc stdRefCase) renderVariant(variant int) ([]byte, string) {
 			f.ImportAlias(p, a)
 		}
 	}
+	if variant == 7 && len(sc.Paths) > 0 {
+		f.ImportAlias(sc.Paths[0], ".") // the first package is dot-imported (an explicit alias: the import provides the names unqualified)
+	}
 	for i, p := range sc.Paths {
 		st := f.Var().Id(fmt.Sprintf("V%d", i)).Op("=").Qual(p, fmt.Sprintf("StdSym%d", i))
 		if variant == 3 {
@@ -148,7 +155,7 @@ func (sc stdRefCase) renderVariant(variant int) ([]byte, string) {
 		}
 	}
 	switch variant {
-	case 1:
+	case 1, 7:
 		if _, fail := renderFile(f); fail != "" {
 			return nil, fail
 		}
@@ -169,8 +176,11 @@ func stdDeclared(path string) []string {
 
 func c18Case(r *mon.Run, sc stdRefCase, c mon.Case) {
 	for v := 1; v < len(c18Variants); v++ {
-		if v >= 5 && len(sc.Aliases) == 0 {
+		if (v == 5 || v == 6) && len(sc.Aliases) == 0 {
 			continue // these two variants only differ from the plain one when an alias hint is given
+		}
+		if v == 7 && (len(sc.Aliases) > 0 || len(sc.Paths) > 3) {
+			continue
 		}
 		src, fail := sc.renderVariant(v)
 		if fail != "" {
@@ -294,6 +304,7 @@ func c18Domain(r *mon.Run) []stdRefCase {
 		for i := range ps {
 			for j := range ps {
 				if i != j {
+					out = append(out, stdRefCase{Paths: []string{ps[i], ps[j]}, Aliases: map[string]string{ps[j]: n}, Label: "pair, the second asks for the shared name by alias"})
 					out = append(out, stdRefCase{Paths: []string{ps[i], ps[j]}, Label: "pair"})
 					out = append(out, stdRefCase{Paths: []string{ps[i], ps[j]}, Prefix: "pk", Label: "pair+prefix"})
 				}
@@ -361,7 +372,7 @@ func runC18(r *mon.Run) {
 		r.Inconclusive(fmt.Sprintf("only %d package directories found under %s", len(std), oracle.GorootSrc()))
 		return
 	}
-	r.SetRule(fmt.Sprintf("every importable package directory of %s (%d; cmd, testdata, vendor, _/. excluded), alone with and without PackagePrefix, each case produced up to seven ways (fresh File; second render of the same File; File with a cgo preamble nothing refers to; after the references were rendered with RenderWithFile; File whose package is named like the package referred to; for cases with an alias hint also: alias given after a name hint for the same path, alias given twice); every ordered pair (and group) of packages declaring the same name or sharing the last path element (modulo /vN); all packages in one file in two orders; then the same single-reference and pair cases with ImportNames(table produced by running /repo/gennames), and every entry of that table against the package clauses. Enumerated completely in both tiers. non-trivial = every case; distinct by (label, paths, prefix)", oracle.GorootSrc(), len(std)))
+	r.SetRule(fmt.Sprintf("every importable package directory of %s (%d; cmd, testdata, vendor, _/. excluded), alone with and without PackagePrefix, each case produced up to eight ways (fresh File; second render of the same File; File with a cgo preamble nothing refers to; after the references were rendered with RenderWithFile; File whose package is named like the package referred to; for cases with an alias hint also: alias given after a name hint for the same path, alias given twice; first package dot-imported and the File rendered twice); every ordered pair (and group) of packages declaring the same name or sharing the last path element (modulo /vN); all packages in one file in two orders; then the same single-reference and pair cases with ImportNames(table produced by running /repo/gennames), and every entry of that table against the package clauses. Enumerated completely in both tiers. non-trivial = every case; distinct by (label, paths, prefix)", oracle.GorootSrc(), len(std)))
 	r.SetExhaustive(true)
 	r.Put("std_package_dirs", len(std))
 	c18NegControls(r)
